@@ -86,12 +86,21 @@ def gen_case(rng):
         for _ in range(rng.choice([1, 1, 2])):
             lhs = rng.choice(fixed_places)
             r = rng.random()
-            if r < 0.4:
+            int_places = [p for p in places if p not in fixed_places]
+            intleft = bool(int_places) and rng.random() < 0.3
+            if intleft:
+                # an integer on the left, fixed point on the right
+                lhs = rng.choice(int_places)
+                r = rng.choice([0.1, 0.9])
+            if intleft and r >= 0.6:
+                rhs = ["p", rng.choice(fixed_places)]
+                pivot = None
+            elif r < 0.4:
                 s = rand_decimal(rng) if rng.random() < 0.5 else str(
                     Decimal(rng.randint(-3 * 10 ** 9, 3 * 10 ** 10))
                     .scaleb(-rng.randint(0, 5)))
                 rhs = ["f", s]
-                pivot = Fraction(s) * 100000
+                pivot = Fraction(s) * (1 if intleft else 100000)
             elif r < 0.6:
                 v = rng.choice([0, 1, 10000, 21474, 21475, 42949, 42950,
                                 -21475, rng.randint(-10 ** 6, 10 ** 6)])
